@@ -685,7 +685,19 @@ func runScenario(sc *Scenario, only *KillPoint) (*scenStats, error) {
 			kps = nil // no kill run; the error-injection run below
 		}
 	}
-	_ = allKps
+	if len(allKps) > 0 {
+		var names []string
+		for _, t := range sc.Targets {
+			names = append(names, fmt.Sprintf("%s(%s,%04o)", t.Name, t.Kind, t.Mode))
+		}
+		var ks []string
+		for i, kp := range allKps {
+			if i%9 == 0 {
+				ks = append(ks, kit.Clip(kp.Masked, 110))
+			}
+		}
+		st.sample = map[string]any{"scenario": sc.Idx, "targets": names, "flags": sc.Flags, "umask": fmt.Sprintf("%04o", sc.Umask), "tmpdir": sc.Tmpdir, "kill_points": len(allKps), "some_kill_points": ks}
+	}
 	for _, c := range ref.calls {
 		if c.name == "write" && c.relevant && strings.Contains(c.text, "...") {
 			st.bigWrites++
@@ -783,19 +795,6 @@ func runScenario(sc *Scenario, only *KillPoint) (*scenStats, error) {
 				break
 			}
 		}
-	}
-	if sc.Idx%7 == 0 && len(kps) > 0 {
-		var names []string
-		for _, t := range sc.Targets {
-			names = append(names, fmt.Sprintf("%s(%s,%04o)", t.Name, t.Kind, t.Mode))
-		}
-		var ks []string
-		for i, kp := range kps {
-			if i%9 == 0 {
-				ks = append(ks, kit.Clip(kp.Masked, 110))
-			}
-		}
-		st.sample = map[string]any{"scenario": sc.Idx, "targets": names, "flags": sc.Flags, "umask": fmt.Sprintf("%04o", sc.Umask), "tmpdir": sc.Tmpdir, "kill_points": len(kps), "some_kill_points": ks}
 	}
 	return st, nil
 }
